@@ -1,27 +1,98 @@
-(* C05 — Program image equals the sequential layout of its statements.  Statements only; proofs in Asm/LayoutProofs.v.
-   Model: Asm/CtxModel.v (statement loop `run_items`/`step`, close_segment), oracle: Asm/LayoutSpec.v.
+(* C05 — Program image equals the sequential layout of its statements.  Statements only; proofs in
+   Asm/Layout{Proofs,Eval,Instr,Dict,Sim,Step,Final}.v.
+   Model: Asm/CtxModel.v (statement loop `run_items`/`step`, end-of-file tasks, close_segment, finalize, `pipeline`),
+   oracle: Asm/LayoutSpec.v (`layout_spec`: two passes; pass 2 evaluates every value in the FINAL symbol table).
 
-   PARTIAL.  Full statements (not proved; covered by the correspondence stream of props/C05.json, where the
-   implementation's image is compared with LayoutSpec.layout_spec on every successful program and with the model):
-   * C05_layout : forall fs path text out, pipeline fs path text = Done Success [] out ->
-       forall prog placed env, parsed text = prog -> layout_spec fs prog = Some (placed, env) ->
-       out = the maximal runs of the dictionary { addr + i |-> byte i of each placed statement }
-     (any number of regions, deferred statements, instructions with operands);
-   * C05_labels : ... -> forall l v, In (l, v) env -> the table of the model maps l to v at the end of the file;
-   * C05_order_independent / C05_no_placeholder : every deferred statement's bytes in `out` are the bytes LayoutSpec
-     computes in the FINAL table (needs C08_staged lifted through run_task).
-   Proved below: the single-region, no-deferral case for statements without operand evaluation. *)
+   PARTIAL.  Proved below (C05_layout_partial) for the following class of programs, starting from the parsed statement list:
+   every single-file program for which the reference layout is defined (labels, .addr, .align, .const, .du8/.du16/.du32,
+   .dstr, .dhex and instruction statements; the operands of .addr/.align/.const use earlier symbols; values in range), with
+   any number of regions in any address order, and
+   * .du8/.du16/.du32 of ANY expression: evaluated at once, or deferred because a label / .const is defined LATER
+     (same region, another region, before or after a region switch);
+   * instruction statements: any mnemonic and operand forms when every symbol they mention is defined EARLIER in the file;
+     a statement mentioning a LATER symbol must be a B<cond> / BL whose target expression has a checked 64-bit value in the
+     final table (Expr/Denote.den64);
+   * no .dfile statement (and no .include/.global/.import/.export: outside the oracle's domain, C14).
+   For such a program: if the pipeline reports success without diagnostics, its regions are exactly the maximal runs of
+   the dictionary { address + i |-> byte i } of the reference's statements - nothing else, no placeholder left where a
+   deferred value was resolved (the reference has 0xBE only as .align padding), every deferred statement carries the bytes
+   of its value in the FINAL table (= the bytes it would have had, had the definition come first).
+   Not proved (covered by the correspondence stream of props/C05.json: the implementation's image is compared with
+   layout_spec on every successful program and with the model on every program):
+   * C05_layout for the full class: deferred instruction statements other than B<cond>/BL (ADR / LDR literal / immediates
+     naming a later .const), .dfile, .include;
+   * C05_order_independent / C05_no_placeholder as statements of their own (inside the class they are consequences of
+     C05_layout_partial, the reference being evaluated in the final table; C05_staged_after_failure is the expression-level
+     fact they rest on). *)
 From Coq Require Import ZArith NArith List Bool String.
-From Trion Require Import Text.Types Text.ParseModel Expr.EvalModel Arm.DisplayModel Mem.MapModel Mem.MapProofs
-  Asm.CtxModel Asm.CtxProofs Asm.LayoutSpec Asm.SegProofs Asm.LayoutProofs.
+From Trion Require Import Text.Types Text.ParseModel Expr.I64 Expr.EvalModel Expr.Denote Expr.C08Sound Arm.DisplayModel Arm.AsmStmtModel
+  Mem.MapModel Mem.MapProofs
+  Asm.CtxModel Asm.CtxProofs Asm.LayoutSpec Asm.SegProofs Asm.LayoutProofs Asm.Ctx06Proofs Asm.LayoutEval Asm.LayoutInstr Asm.LayoutStep Asm.LayoutFinal.
 Import ListNotations.
 Open Scope N_scope.
 
-(* simple_bytes e = Some b : e is `.dstr "<b>"` or `.du8/.du16/.du32 <literal in range>` with little-endian bytes b.
-   One freshly selected region (empty buffer, nothing in the map yet) of such statements, then close_segment:
-   the image is the concatenation of the statements' bytes at the region's base — nothing else — and no diagnostic
-   is recorded. *)
-Theorem C05_layout_partial : forall dbg fs inc els st s bs,
+(* The class.  C05_class fs env els: for every statement e of els, with s0 = the state pass 1 of the reference has reached
+   before e:  stmt_ok env (p_env s0) e, where
+     stmt_ok E ek (label)              = True
+     stmt_ok E ek (directive name ..)  = name is not "dfile"
+     stmt_ok E ek (instruction n args) = every identifier in args is a register or defined in ek (known_in)
+                                         \/ n is a B<cond>/BL mnemonic and every operand has a den64 value in E.
+   The two definitions are restated here so that the statement below can be read without the proof files. *)
+Theorem C05_class_def : forall fs E els,
+  C05_class fs E els <->
+  (forall pre e post s0, els = pre ++ e :: post -> pass1 fs (mkP1 None [] []) (map e_val pre) = Some s0 ->
+     match e_val e with
+     | ELabel _ => True
+     | EDirective name _ => dir_of name <> Some DFile
+     | EInstruction name args =>
+         (forall a, In a args -> forall n, In n (LayoutEval.idents a) ->
+            CtxModel.is_register n = true \/ exists v, env_get (p_env s0) n = Some v)
+         \/ (exists t, template name = Some t /\ is_branch t = true /\ forall a, In a args -> den64 (rho E) a <> None)
+     end).
+Proof.
+  intros fs E els. unfold C05_class, class_from, stmt_ok, known_in, known, LayoutSim.lkE.
+  split; intros H pre e post s0 H1 H2; specialize (H pre e post s0 H1 H2); destruct (e_val e); auto;
+    (destruct H as [H|H]; [left|right; exact H]); intros a Ha n Hn; destruct (H a Ha n Hn) as [R|(v & F)]; auto; right.
+  - destruct (env_get (p_env s0) n) as [w|]; [eauto|discriminate].
+  - exists v. rewrite F. reflexivity.
+Qed.
+
+(* The image of a program of the class is the reference layout, and nothing else: any number of regions in any address
+   order, immediate and deferred statements.  image_of placed = DictSpec.runs of the dictionary that holds byte i of every
+   placed statement at address + i. *)
+Theorem C05_layout_partial : forall fs path text els placed env regions,
+  parse_source text = Parsed (map IOk els) None ->
+  layout_spec fs (map e_val els) = Some (placed, env) ->
+  C05_class fs env els ->
+  pipeline fs path text = Done Success [] regions ->
+  regions = image_of placed.
+Proof. exact layout_general. Qed.
+
+(* Labels and constants: at the end of the statement loop the context's table is the reference's final table
+   (a success of the loop without diagnostics is all that is assumed of the context) ... *)
+Theorem C05_labels_partial : forall fs inc path els placed env st',
+  inc_ok inc -> layout_spec fs (map e_val els) = Some (placed, env) -> C05_class fs env els ->
+  run_items false fs inc (map IOk els) (fst (enter_file init_state path)) = Ret None st' -> errors st' = [] ->
+  forall n, get_constant st' n RLocal = Some (match env_get env n with Some v => Found v | None => NotFound end).
+Proof. exact labels_general. Qed.
+
+(* ... and in the reference a label's value is the address of the statement placed next, i.e. of the byte that follows it *)
+Theorem C05_label_next_item : forall fs s n s1 e s2 a it,
+  pass1_step fs s (ELabel n) = Some s1 -> pass1_step fs s1 e = Some s2 ->
+  p_items s2 = (a, it) :: p_items s1 -> env_get (p_env s1) n = Some (Z.of_N a).
+Proof. exact label_next_item. Qed.
+
+(* Order independence at the expression level, for the path C08_staged does not cover: a statement deferred because a
+   name is UNKNOWN keeps the tree the failed evaluation leaves behind (CtxEval.evaluate_mut); evaluating that tree once
+   the name is defined gives the value of the original expression. *)
+Theorem C05_staged_after_failure : forall rho lk1 lk2 ir a a' e v1 ev v2,
+  compat rho lk1 ir -> compat rho lk2 ir ->
+  evaluate_mut (fun n => Some (lk1 n)) ir a = EvErr a' e -> evaluate lk2 ir a' = I64.Ok (AConst v1, ev) ->
+  den64 rho a = Some v2 -> v1 = v2.
+Proof. exact staged_after_failure. Qed.
+
+(* One freshly selected region of .dstr / .du*-literal statements from an arbitrary state (any overflow-check profile) *)
+Theorem C05_layout_region_partial : forall dbg fs inc els st s bs,
   output st = [] -> active st = Active s -> s_buf s = [] -> SegInv [] s ->
   Forall2 (fun e b => simple_bytes (e_val e) = Some b) els bs -> List.concat bs <> [] ->
   MapModel.len (List.concat bs) <= s_max s ->
@@ -30,28 +101,24 @@ Theorem C05_layout_partial : forall dbg fs inc els st s bs,
       output st2 = [(s_base s, s_base s + MapModel.len (List.concat bs) - 1, List.concat bs)] /\ errors st2 = errors st.
 Proof. exact layout_single. Qed.
 
-(* within a region every simple statement is an append of exactly its bytes (the step the induction above uses) *)
+(* within a region every simple statement is an append of exactly its bytes *)
 Theorem C05_statement_appends : forall dbg fs inc st s e b,
   active st = Active s -> SegInv (output st) s -> simple_bytes (e_val e) = Some b ->
   blen s + MapModel.len b <= s_max s ->
   step dbg fs inc st e = Ret None (set_active st (Active (set_buf s (s_buf s ++ b)))).
 Proof. exact step_simple. Qed.
 
-(* a label evaluates to the address of the byte that follows it: base + |bytes written so far|, which is where the
-   next write puts its first byte *)
-Theorem C05_labels_partial : forall dbg fs inc st s e name tbl b,
+(* a label evaluates to base + |bytes written so far|, which is where the next write puts its first byte *)
+Theorem C05_label_step : forall dbg fs inc st s e name tbl b,
   e_val e = ELabel name -> active st = Active s -> SegInv (output st) s -> locals st = Some tbl ->
-  is_register name = false -> tbl_get tbl name = None -> blen s < s_max s ->
+  CtxModel.is_register name = false -> tbl_get tbl name = None -> blen s < s_max s ->
   exists st1, step dbg fs inc st e = Ret None st1 /\
     get_constant st1 name RLocal = Some (Found (Z.of_N (s_base s + blen s))) /\
     active st1 = Active s /\
     seg_write dbg s [b] = SOk (set_buf s (s_buf s ++ [b])).
 Proof. exact label_next_byte. Qed.
 
-(* the in-place evaluation the context performs (Asm/CtxEval.evaluate_mut, which also returns the partially
-   substituted tree when it fails) is Expr/EvalModel.evaluate: same tree and status on success, an error exactly when
-   evaluate reports one, a panic exactly when evaluate panics (never: C08_no_panic).  This is what carries C08's
-   "same value before or after the definition" (C08_staged / C08_direct) over to deferred statements. *)
+(* the in-place evaluation the context performs is Expr/EvalModel.evaluate (so C07/C08 apply to it) *)
 Theorem C05_evaluate_agrees : forall lk isr a,
   match evaluate lk isr a with
   | I64.Ok (a', e) => evaluate_mut (fun n => Some (lk n)) isr a = EvOk a' e
@@ -69,9 +136,10 @@ Theorem C05_examples :
   pipeline nofs (src "root.asm") t = Done Success [] [(0x100, 0x101, [127; 224]); (0x200, 0x205, [0; 191; 2; 2; 0; 0])]
   /\ match parse_source t with
      | Parsed items None =>
-         option_map (fun r => map (fun x => (fst (fst x), snd (fst x))) (fst r))
+         option_map (fun r => (map (fun x => (fst (fst x), snd (fst x))) (fst r), image_of (fst r)))
            (layout_spec nofs (flat_map (fun i => match i with ParseModel.IOk e => [e_val e] | _ => [] end) items))
-         = Some [(0x100, [127; 224]); (0x200, [0; 191]); (0x202, [2; 2; 0; 0])]
+         = Some ([(0x100, [127; 224]); (0x200, [0; 191]); (0x202, [2; 2; 0; 0])],
+                 [(0x100, 0x101, [127; 224]); (0x200, 0x205, [0; 191; 2; 2; 0; 0])])
      | _ => False
      end.
 Proof. vm_compute. split; reflexivity. Qed.
